@@ -12,8 +12,12 @@
 (*   count, last                      (chain.count, chain.lastGroup)       *)
 (*   pc, work                         (position inside save / remove)      *)
 (*                                                                         *)
-(* save() and remove() are sequences of independent Puts/Deletes; each is  *)
-(* one action here so that TLC can interleave a Crash between any two.     *)
+(* Batched = TRUE (the repaired tree): save() and remove() hand their       *)
+(* Puts/Deletes to the store as ONE batch, so a process death leaves either *)
+(* all or none of them; the mirror fields follow in a second step.          *)
+(* Batched = FALSE (the pinned tree, negative control): they are sequences  *)
+(* of independent Puts/Deletes; each is one action here so that TLC can     *)
+(* interleave a Crash between any two.                                      *)
 (* The atomic operators AddAtomic / RemoveAtomic are the compositions of   *)
 (* those writes and are what trace validation binds to the real calls.     *)
 (*                                                                         *)
@@ -29,7 +33,8 @@ EXTENDS Naturals, Sequences, FiniteSets, TLC
 CONSTANTS Ids,        \* group ids other than genesis (small naturals >= 1)
           MaxCount,   \* bound on the number of groups on the chain
           AsCoded,    \* BOOLEAN, see above
-          Crashes     \* BOOLEAN: explore a crash between any two writes
+          Crashes,    \* BOOLEAN: explore a crash between any two writes
+          Batched     \* BOOLEAN: the writes of one save()/remove() are one atomic batch
 
 Genesis == 0
 None    == 99          \* "no id" (absent index entry / lookup miss)
@@ -77,6 +82,7 @@ CanAdd(g) == /\ pc = "idle"
              /\ count < MaxCount
 
 AddBegin(g) ==
+  /\ ~Batched
   /\ CanAdd(g)
   /\ store' = [store EXCEPT ![g] = [pre |-> last, height |-> count, present |-> TRUE]]
   /\ pc' = "add1" /\ work' = g
@@ -107,6 +113,7 @@ CanRemove == pc = "idle" /\ last # Genesis /\ store[last].present
              /\ store[last].pre # None /\ store[store[last].pre].present
 
 RemDelete ==
+  /\ ~Batched
   /\ CanRemove
   /\ work' = store[last].pre
   /\ store' = [store EXCEPT ![last] = Absent]
@@ -135,6 +142,39 @@ RemPutCount ==
   /\ pc' = "idle" /\ work' = None
   /\ UNCHANGED <<store, hidx, lastRec, count>>
 
+(* the repaired tree: one batch, then the mirror fields *)
+AddBatch(g) ==
+  /\ Batched
+  /\ CanAdd(g)
+  /\ store' = [store EXCEPT ![g] = [pre |-> last, height |-> count, present |-> TRUE]]
+  /\ lastRec' = g
+  /\ hidx' = [hidx EXCEPT ![count] = g]
+  /\ countRec' = count + 1
+  /\ pc' = "addv" /\ work' = g
+  /\ UNCHANGED <<count, last>>
+
+AddMirror ==
+  /\ pc = "addv"
+  /\ count' = count + 1 /\ last' = work
+  /\ pc' = "idle" /\ work' = None
+  /\ UNCHANGED <<store, hidx, lastRec, countRec>>
+
+RemBatch ==
+  /\ Batched
+  /\ CanRemove
+  /\ store' = [store EXCEPT ![last] = Absent]
+  /\ lastRec' = store[last].pre
+  /\ hidx' = [hidx EXCEPT ![count - 1] = None]
+  /\ countRec' = count - 1
+  /\ pc' = "remv" /\ work' = store[last].pre
+  /\ UNCHANGED <<count, last>>
+
+RemMirror ==
+  /\ pc = "remv"
+  /\ count' = count - 1 /\ last' = work
+  /\ pc' = "idle" /\ work' = None
+  /\ UNCHANGED <<store, hidx, lastRec, countRec>>
+
 (* Restart at a quiescent point: volatile state is rebuilt from the records *)
 Restart ==
   /\ pc = "idle"
@@ -155,6 +195,7 @@ Next ==
   \/ \E g \in Ids : AddBegin(g)
   \/ AddPutLast \/ AddPutIndex \/ AddPutCount
   \/ RemDelete \/ RemPutLast \/ RemIndex \/ RemPutCount
+  \/ (\E g \in Ids : AddBatch(g)) \/ AddMirror \/ RemBatch \/ RemMirror
   \/ Restart \/ Crash
 
 Spec == Init /\ [][Next]_vars
@@ -185,7 +226,7 @@ InvRecords       == Quiescent => (lastRec = last /\ countRec = count)
 
 TypeOK == /\ count \in 0..MaxCount /\ countRec \in 0..MaxCount
           /\ last \in AllIds /\ lastRec \in AllIds
-          /\ pc \in {"idle","add1","add2","add3","rem1","rem2","rem3"}
+          /\ pc \in {"idle","add1","add2","add3","rem1","rem2","rem3","addv","remv"}
 
 -----------------------------------------------------------------------------
 (* Atomic compositions, used by trace validation (GroupChainTrace)          *)
@@ -230,6 +271,22 @@ AddAllP(r, ids, pres, prev) ==
        ELSE AddAllP(AddPost(r.store, r.hidx, r.count, r.last, Head(ids)), Tail(ids), Tail(pres), Head(ids))
 ForkPostP(s, hx, c, lg, anc, ids, pres) ==
   AddAllP(RemoveDownTo([store |-> s, hidx |-> hx, count |-> c, last |-> lg], anc), ids, pres, anc)
+
+(* Process death inside a fork switch (before any store write of it) followed by a restart: the
+   stores are those of some prefix of its removals, or of all removals and some prefix of its adds *)
+RECURSIVE RemoveStates(_, _)
+RemoveStates(r, anc) ==
+  IF r.last = anc \/ r.last = Genesis \/ ~r.store[r.last].present THEN {r}
+  ELSE {r} \cup RemoveStates(RemovePost(r.store, r.hidx, r.count, r.last), anc)
+RECURSIVE AddStatesP(_, _, _, _)
+AddStatesP(r, ids, pres, prev) ==
+  IF ids = <<>> THEN {r}
+  ELSE LET named == IF Head(pres) = 98 THEN prev ELSE Head(pres) IN
+       IF r.store[Head(ids)].present \/ r.count >= MaxCount \/ named # r.last THEN {r}
+       ELSE {r} \cup AddStatesP(AddPost(r.store, r.hidx, r.count, r.last, Head(ids)), Tail(ids), Tail(pres), Head(ids))
+ForkStatesP(s, hx, c, lg, anc, ids, pres) ==
+  LET r0 == [store |-> s, hidx |-> hx, count |-> c, last |-> lg] IN
+  RemoveStates(r0, anc) \cup AddStatesP(RemoveDownTo(r0, anc), ids, pres, anc)
 
 (* Overlapping calls.  AddGroup(g) runs in two critical sections: (1) without the lock: the id
    must not be on the chain yet (Has), then consensusHelper.CheckGroup - where a call can stay
